@@ -1,7 +1,7 @@
 #!/usr/bin/env python3
 """Regenerates MANIFEST.json from the table below (kept in one place so it is always valid)."""
 import json, subprocess
-HOOK_COMMITS = ["008d02b"]
+HOOK_COMMITS = ["008d02b", "f9c7333"]
 CHECKS = {
  "C01": ("exploration", "5.C01", "refinement of single-client command histories against an executable reference model, inside the deterministic whole-server simulation (virtual clock, scheduled sweeper thread, segmented transport)",
          "Seeded search over histories of string/key-space commands; every reply and, after every command, the complete stored dataset is compared with a Redis reference model evaluated at the exact virtual execution time. Exploration is the right level: the quantifier is over unbounded histories and argument values, which can only be sampled."),
@@ -28,6 +28,10 @@ CHECKS["C13"] = ("exploration", "5.C13", "multi-connection simulation with virtu
   "Seeded search over histories of 2-5 clients with blocking pops, pushes by every path, timeouts driven by the virtual clock to just before/at/after each deadline, and blocked clients disconnecting. The sequential model follows the server's actual execution order; at quiescent points (two idle loop turns) conservation of the element multiset, absence of stranded waiters and of leftover registrations are checked. Interleavings are sampled.")
 CHECKS["C14"] = ("exploration", "5.C14", "multi-connection simulation of subscribers and publishers with exact execution order from the transport seam; per-subscriber expected frame sequences from a model with the harness' own glob matcher",
   "Seeded search over subscribe/unsubscribe/publish/disconnect histories; from the server's read order the exact sequence of acknowledgement and push frames per subscriber and every PUBLISH count is predicted and compared frame by frame; nothing may be missing or surplus at the end. Histories sampled.")
+CHECKS["C15"] = ("exploration", "5.C15", "refinement of stream command histories against an ordered-map reference model inside the deterministic whole-server simulation, with the virtual wall clock (bursts within one millisecond, jumps backwards and forwards) owned by the simulator",
+  "Seeded search over XADD (automatic and explicit ids around, ahead of and at the limits of the virtual clock) / XDEL / XTRIM / XRANGE / XREVRANGE / XREAD / XLEN histories with bounds resolved at execution time to stored ids and their neighbours; every reply and, after every command, the stored entry log, its last id and the duplicated lock-free counters are compared with the model. Histories, ids and clock behaviour are unbounded, so they are sampled.")
+CHECKS["C16"] = ("exploration", "5.C16", "refinement of consumer-group histories against a model of one cursor and one pending map per group, plus a guarded consistency walk of the real pending indexes and counters after every command, under a simulated clock that controls idle times",
+  "Seeded search over multi-consumer, multi-group histories (reads with COUNT/NOACK, acknowledgements, claims with idle thresholds against virtual time, administration commands, entries added and deleted in between); replies are compared with the model and the stored group state (both pending indexes, per-consumer counters, total, cursor) is read back through verif_check_consistency after every command. Histories are sampled, not enumerated.")
 NOT_APPLICABLE = []
 def main():
     import json as _j
